@@ -53,13 +53,48 @@ Theorem C13_marks :
 Proof. exact label_marks. Qed.
 Print Assumptions C13_marks.
 
-(* non-self-safe implies not fully safe (so an unsafe name never sits in a row marked safe) *)
+(* non-self-safe implies not fully safe (so an unsafe name never sits in a row marked safe): for EVERY node kind but the
+   protocol-0 FunctionNode (finding D31-FunctionNode@0, open: its row shows the header's module.class while its audit looks
+   at content.module_path / content.function).  SliceNode is covered since the D31-SliceNode repair: its get_unsafe_set
+   now reports the type the header names unless is_self_safe() *)
 Theorem C13_self_unsafe_not_safe :
-  forall E T root h subs, ukind_of (h_kind h) = UGeneric ->
+  forall E T root h subs, h_kind h <> KFunctionV0 ->
     self_safe E T h = Ok false ->
     forall u, unsafe E T root (Node h subs) = Ok u -> u <> [].
-Proof. intros E T root h subs UK SS u. apply self_unsafe_not_safe; assumption. Qed.
+Proof. intros E T root h subs NV SS u. apply self_unsafe_not_safe_but_v0; assumption. Qed.
 Print Assumptions C13_self_unsafe_not_safe.
+
+(* the former witness of D31-SliceNode, {"__loader__": "SliceNode", "__module__": "x", "__class__": "y", bounds None}:
+   with no trusted list the name x.y is REPORTED by get_untrusted_types, load refuses the archive, and the single row
+   visualize shows is tagged (not self-safe) and NOT fully safe; nested in a list the root row is not fully safe either;
+   when the caller trusts x.y everything is clean.  (Before the repair: nothing reported, load accepted, row tagged
+   [UNSAFE] but flagged safe.) *)
+Definition slice_env : env :=
+  {| e_reg := Snapshot.registry; e_cur := Snapshot.current; e_classes := Snapshot.classes; e_unavailable := Snapshot.unavailable;
+     e_members := []; e_resolve := [] |}.
+Definition w_slice_state (id : Z) : list (pstr * json) :=
+  [(s "__class__", JStr (s "y")); (s "__module__", JStr (s "x")); (s "__loader__", JStr (s "SliceNode")); (s "__id__", JInt id);
+   (s "content", JObj [(s "start", JNull); (s "stop", JNull); (s "step", JNull)])].
+Definition w_slice : json := JObj (w_slice_state 1 ++ [(s "protocol", JInt Snapshot.current)]).
+Definition w_slice_in_list : json :=
+  JObj [(s "__class__", JStr (s "list")); (s "__module__", JStr (s "builtins")); (s "__loader__", JStr (s "ListNode")); (s "__id__", JInt 1%Z);
+        (s "content", JArr [JObj (w_slice_state 2)]); (s "protocol", JInt Snapshot.current)].
+Definition flags (r : res (list row)) : res (list (nat * pstr * bool * bool)) :=
+  do l <- r; Ok (map (fun x => (r_level x, r_val x, r_self_safe x, r_safe x)) l).
+
+Theorem C13_slice_name_reported :
+  get_untrusted_types slice_env w_slice = Ok [s "x.y"]
+  /\ load_audit slice_env w_slice (TList None) = Raise (EUntrusted [s "x.y"])
+  /\ flags (visualize slice_env Snapshot.skipped w_slice None ShowAll) = Ok [(0%nat, s "x.y", false, false)]
+  /\ get_untrusted_types slice_env w_slice_in_list = Ok [s "x.y"]
+  /\ flags (visualize slice_env Snapshot.skipped w_slice_in_list None ShowAll)
+     = Ok [(0%nat, s "builtins.list", true, false); (1%nat, s "x.y", false, false)]
+  /\ flags (visualize slice_env Snapshot.skipped w_slice_in_list None ShowUntrusted)
+     = Ok [(0%nat, s "builtins.list", true, false); (1%nat, s "x.y", false, false)]
+  /\ flags (visualize slice_env Snapshot.skipped w_slice (Some [s "x.y"]) ShowAll) = Ok [(0%nat, s "x.y", true, true)]
+  /\ (exists t, load_audit slice_env w_slice (TList (Some [s "x.y"])) = Ok t).
+Proof. repeat split; try (vm_compute; reflexivity). eexists. vm_compute. reflexivity. Qed.
+Print Assumptions C13_slice_name_reported.
 
 (* no row is marked fully safe while an untrusted name occurs at or beneath it: a node whose audit is empty
    (that is what r_safe = true means, C13_row_is_audit) has no untrusting node anywhere in its subtree *)
